@@ -132,10 +132,16 @@ static void hint_prog()
         ev.set();
         ++finished;
     });
+    // bulk sent to the hinted scheduler: the tasks bulk creates for its chunks inherit the hint
+    static int bulk_worker[3];
+    for (auto& w : bulk_worker) w = -1;
+    ex::start_detached(ex::schedule(ex::with_hint(sched, pika::execution::thread_schedule_hint(h))) | ex::bulk(3, [](int i) { bulk_worker[i] = (int) pika::get_local_worker_thread_num(); pika::this_thread::yield(); }));
     rt::stop();
     PMC_ASSERT(finished == 2 && nph == 4, "not-run", "hinted task did not run all phases (%d)", nph);
     for (int i = 0; i < nph; ++i)
         PMC_ASSERT(phases[i] == h, "wrong-worker", "phase %d of the task hinted to worker %d ran on worker %d (policy %s)", i, h, phases[i], pol[POLICY]);
+    for (int i = 0; i < 3; ++i)
+        PMC_ASSERT(bulk_worker[i] == h, "wrong-worker", "element %d of bulk on a scheduler hinted to worker %d ran on worker %d (policy %s)", i, h, bulk_worker[i], pol[POLICY]);
     pmc_outcome("h=%d", h);
 }
 
